@@ -72,6 +72,12 @@ def run(ctx):
                 with C.quiet():
                     p = m.do_math(obj=False); pj = C.prog_json(p)
                     d = m.do_math(primal=False, obj=False); dj = C.prog_json(d)
+                # hypotheses of C01.rc_sound on the support's primal: all-ones cost, cones on lifted columns only
+                nzv = int(m.vars[-1].last)
+                if any(c != '1' for c in pj['c']) or any(j < nzv for q in pj['qmat'] + pj['xmat'] for j in q):
+                    ctx.disagree('hypothesis rc_sound (support primal)', {"c": pj['c'], "qmat": pj['qmat'], "nz": nzv}, {"desc": desc})
+                else:
+                    ctx.count('hyp:rc_sound-support')
             else:
                 m, desc = gen.random_model(ctx.rng, kind)
                 p, pj, d, dj = _export_pair(m)
